@@ -70,6 +70,8 @@ type arrayRun struct {
 	hugeIdx uint64 // index of the current rejected request when it exceeds int64
 	tall    bool   // thousands of tiny elements at the smallest slab size, then long runs of tail removals (height 3-4, index-slab rebalancing)
 	deep    bool   // many small elements: index slabs with >= 32 children (binary-search routing), height 3
+
+	sz *arraySizes // -mode sizes (array_sizes.go): slab sizes of the whole legal range, directed runs at slab boundaries
 }
 
 func (r *arrayRun) viol(what, detail string) {
@@ -81,6 +83,11 @@ func (r *arrayRun) viol(what, detail string) {
 
 // newVal creates an element whose stored size is chosen where the code branches.
 func (r *arrayRun) newVal() aval {
+	if r.sz != nil && r.sz.forced != nil { // -mode sizes: the generator chose the element
+		v := *r.sz.forced
+		r.sz.forced = nil
+		return v
+	}
 	rng := r.rng
 	r.nextID++
 	id := r.nextID
@@ -187,6 +194,9 @@ func (r *arrayRun) mutTail(dump bool) []int64 {
 			removes++
 		}
 	}
+	if r.sz != nil {
+		r.sizesLogHook(stores, removes)
+	}
 	if removes > 0 {
 		r.merges++
 		r.rep.Event("ops_with_merge_or_promotion")
@@ -247,6 +257,9 @@ func (r *arrayRun) noteShape(d []int64) {
 }
 
 func (r *arrayRun) wantDump() int64 {
+	if r.sz != nil {
+		return r.sizesWantDump()
+	}
 	every := 16
 	if r.deep {
 		every = 96
@@ -703,6 +716,10 @@ func (r *arrayRun) reopenCheck() {
 }
 
 func cmdArray(a Args) {
+	if a.Mode == "sizes" {
+		cmdArraySizes(a)
+		return
+	}
 	rep := NewReport(a.Prop, a.Seed)
 	rep.Rule = "array histories in phases (grow, churn, shrink to empty, regrow) at slab sizes {256,257,300,511,512,1024,1536,4096,32768}; element sizes concentrated at the inline limit, half of it, a quarter slab, and above the limit (externalised); positions front/back/uniform; out-of-range requests and invalid ranges injected; per step: result, write log, allocator, root header, and (small arrays always, else every 16th step) the whole slab tree are compared with the Coq model; oracle: plain Go slice, VerifyArray, health, reopen after commit. non-trivial = at least one operation split a slab and at least one merged slabs or promoted a child to root (seen in the write log)"
 	tr := NewTrace(a.Out + "/trace.txt")
